@@ -149,12 +149,20 @@ func (r *Remote) receive(ctx context.Context, ID json.RawMessage) (*Message, err
 	}
 }
 
-// Call handles sending an RPC and receiving the corresponding response synchronously.
-func (r *Remote) Call(ctx context.Context, result interface{}, method string, params ...interface{}) error {
+// client returns the Client used for making requests, a default one is set if
+// none was provided. Concurrent calls share the same Client.
+func (r *Remote) client() Requester {
+	r.mu.Lock()
+	defer r.mu.Unlock()
 	if r.Client == nil {
 		r.Client = &Client{}
 	}
-	req, err := r.Client.Request(method, params...)
+	return r.Client
+}
+
+// Call handles sending an RPC and receiving the corresponding response synchronously.
+func (r *Remote) Call(ctx context.Context, result interface{}, method string, params ...interface{}) error {
+	req, err := r.client().Request(method, params...)
 	if err != nil {
 		return err
 	}
